@@ -1576,6 +1576,12 @@ func (c *KVStore) PruneGraph(_ context.Context, spentOutputs []*wire.OutPoint,
 				return err
 			}
 
+			// If the edge wasn't found, then nothing was deleted
+			// and there's no channel to report as closed.
+			if edgeInfo == nil {
+				continue
+			}
+
 			chansClosed = append(chansClosed, edgeInfo)
 		}
 
@@ -1838,6 +1844,12 @@ func (c *KVStore) DisconnectBlockAtHeight(_ context.Context,
 			)
 			if err != nil && !errors.Is(err, ErrEdgeNotFound) {
 				return err
+			}
+
+			// If the edge wasn't found, then nothing was deleted
+			// and there's no channel to report as removed.
+			if edgeInfo == nil {
+				continue
 			}
 
 			removedChans = append(removedChans, edgeInfo)
